@@ -60,11 +60,36 @@ class Injector:
             setattr(proxy, fname, make(fname))
         self.real_os = tr.os
         tr.os = proxy
+
+        # file copies (YAMLTrace.clone copies its pages with shutil.copy): one file operation each
+        class ShutilProxy:
+            def __getattr__(self_, name):
+                return getattr(shutil, name)
+        sproxy = ShutilProxy()
+        for fname in ("copy", "copy2", "copyfile", "move"):
+            def make2(fname):
+                real = getattr(shutil, fname)
+
+                def op(*a, **kw):
+                    if inj.armed:
+                        inj.count += 1
+                        if inj.fail_at is not None and inj.count == inj.fail_at:
+                            raise Crash("injected crash before file operation %d (shutil.%s -> %s)" % (
+                                inj.count, fname, os.path.basename(str(a[1])) if len(a) > 1 else ""))
+                        inj.log.append((fname, os.path.basename(str(a[1])) if len(a) > 1 else ""))
+                    return real(*a, **kw)
+                return op
+            setattr(sproxy, fname, make2(fname))
+        self.real_shutil = getattr(tr, "shutil", None)
+        if self.real_shutil is not None:
+            tr.shutil = sproxy
         return self
 
     def __exit__(self, *exc):
         del self.tr.open
         self.tr.os = self.real_os
+        if self.real_shutil is not None:
+            self.tr.shutil = self.real_shutil
         return False
 
 
@@ -179,7 +204,54 @@ def oracle_restart_after_crash(args):
         shutil.rmtree(tmp, ignore_errors=True)
 
 
-ORACLES = {"crash": oracle_crash, "restart_after_crash": oracle_restart_after_crash}
+@safe_oracle
+def oracle_crash_in_clone(args):
+    """the process dies between two file operations of YAMLTrace.clone() (a trajectory clone / an even-sampling spawn of a trace
+    that already spans several pages): the original's files are untouched and still hold everything, and whatever main log the
+    half-made clone left behind loads and holds a prefix of the original's snapshots"""
+    from mudslide.tracer import YAMLTrace, load_log
+    rng = np.random.Generator(np.random.PCG64(args["seed"]))
+    tmp = tempfile.mkdtemp(prefix="verif-c15c-")
+    problems = []
+    try:
+        with Injector() as inj:
+            t = YAMLTrace(base_name="traj", location=tmp, log_pitch=args["pitch"])
+            n = int(args["n"])
+            for i in range(n):
+                t.collect(c14.make_snapshot(rng, i))
+            inj.armed = True
+            inj.fail_at = args["k"]
+            crashed = False
+            try:
+                t.clone()
+            except Crash:
+                crashed = True
+            inj.armed = False
+            total = inj.count
+            first_copy = next((i + 1 for i, (kind, _f) in enumerate(inj.log) if kind in ("copy", "copy2", "copyfile", "move")), None)
+        main = os.path.join(tmp, t.main_log)
+        ids = [g["id"] for g in load_log(main)]
+        if ids != list(range(n)):
+            problems.append("after a crash inside clone() the ORIGINAL log holds %r" % (ids,))
+        for fn in sorted(os.listdir(tmp)):
+            if not fn.endswith(".yaml") or "-log_" in fn or fn.endswith("-events.yaml") or fn == t.main_log:
+                continue
+            try:
+                cids = [g["id"] for g in load_log(os.path.join(tmp, fn))]
+            except Exception as e:  # noqa
+                problems.append("the clone's main log %s does not load after a crash before file operation %r of clone(): %s: %s"
+                                % (fn, args["k"], type(e).__name__, str(e)[:80]))
+                continue
+            if cids != list(range(len(cids))) or len(cids) > n:
+                problems.append("the clone's log holds %r: not a prefix of the original's %d snapshots" % (cids, n))
+        return not problems, {"crashed": crashed, "file_operations_of_clone": total, "first_copy_operation": first_copy,
+                              "problems": problems[:3]}, {"problems": []}, \
+            "; ".join(problems[:2]) or "ok"
+    finally:
+        shutil.rmtree(tmp, ignore_errors=True)
+
+
+ORACLES = {"crash_in_clone": oracle_crash_in_clone, "crash": oracle_crash, "restart_after_crash": oracle_restart_after_crash}
 
 
 def run(ctx):
@@ -189,7 +261,7 @@ def run(ctx):
                 "inside a page roll-over; distinct by (pitch, completed mod pitch, position inside the collect)")
     ctx.assumptions += ["granularity: an open-for-write/append + write + close is one atomic file operation (as the property "
                         "states); truncation inside one `with open(...,'w')` is outside the quantifier",
-                        "fault injection patches `open` and `os.remove/unlink/rename/replace` as seen by mudslide.tracer"]
+                        "fault injection patches `open`, `os.remove/unlink/rename/replace` and `shutil.copy/copy2/copyfile/move` as seen by mudslide.tracer"]
     ctx.fingerprints["mudslide/tracer.py"] = fingerprint("mudslide/tracer.py", ["collect", "write_main_log", "__init__"])
     ctx.proofs()
     rng = ctx.rng
@@ -263,6 +335,23 @@ def run(ctx):
         if not ok:
             sig = "crash-window-index-before-page" if (obs.get("load") == "FileNotFoundError" and inroll) else "crash-unloadable"
             ctx.oracle_fail(sig, "crash", a, obs, req, text)
+    # the process dies inside YAMLTrace.clone(): every file operation of the clone of a multi-page trace
+    for i in range(ctx.budget(5, 40)):
+        pitch = int(rng.integers(1, 5))
+        a0 = {"pitch": pitch, "n": pitch * int(rng.integers(2, 5)) + int(rng.integers(0, pitch + 1)), "seed": int(rng.integers(1, 2 ** 31)), "k": None}
+        ok, obs, req, text = oracle_crash_in_clone(a0)
+        total = int(obs.get("file_operations_of_clone", 0))
+        if not ok:
+            ctx.oracle_fail("clone-without-crash", "crash_in_clone", a0, obs, req, text)
+        # (the first operations of clone() are the constructor of the new trace creating its - still empty - files: "after the
+        # first snapshot has been recorded" starts, for the clone, when the recorded pages have begun to arrive: after the first copy)
+        for k in range(int(obs.get("first_copy_operation") or total + 1) + 1, total + 1):
+            a = dict(a0, k=k)
+            ok, obs, req, text = oracle_crash_in_clone(a)
+            ctx.case(("crash-in-clone", pitch, k))
+            ctx.count("crash_points_inside_clone")
+            if not ok:
+                ctx.oracle_fail("crash-in-clone", "crash_in_clone", a, obs, req, text)
     for i in range(ctx.budget(6, 60)):
         a = {"model": ["simple", "dual", "extended"][i % 3], "pitch": int(rng.integers(1, 5)), "steps": int(rng.integers(4, 12)),
              "k": int(rng.integers(1, 10))}
